@@ -505,6 +505,7 @@ class Report:
     def replay(self, doc, name):
         doc = dict(doc)
         doc["property"] = self.pid
+        os.makedirs(os.path.join(OUT, self.pid), exist_ok=True)
         path = os.path.join(OUT, self.pid, re.sub(r"[^A-Za-z0-9_.-]", "_", name) + ".json")
         with open(path, "w") as f:
             json.dump(doc, f, indent=1, default=str)
